@@ -24,6 +24,7 @@ OL_IMPORT_TMP: _ol_reserved_name = "__ol_mod_{}"
 OL_WHILE_TMP: _ol_reserved_name = "__ol_while_{}"
 OL_ITERTOOLS: _ol_reserved_name = "__ol_itertools"  # don't need format here
 OL_IMPORTLIB: _ol_reserved_name = "__ol_importlib"  # don't need format here
+OL_OPERATOR: _ol_reserved_name = "__ol_operator"  # don't need format here
 
 
 def ol_name(name: _ol_reserved_name):
